@@ -169,7 +169,7 @@ impl Visit for LiteralVisitor {
                                     && args[0].spread.is_none()
                                     && args[0].expr.is_lit()
                             })
-                            .is_some()
+                            .unwrap_or(false)
                     {
                         // if the call is a new RegExp('regex') skip visiting children
                         return;
